@@ -1,16 +1,20 @@
 """
 C19 — copies of library objects are independent, equivalent and safely destroyable.
 
-Proof: lean/Sqfs/Props/C19.lean over the object-heap model (Sqfs/Model/Obj.lean: sqfs_grab/drop/copy, one
-description per copy hook) and the per-kind state machines (Sqfs/Model/ObjKinds.lean).
+Proof: lean/Sqfs/Props/C19.lean over the object-heap model (Sqfs/Model/Obj.lean: sqfs_grab/drop/copy, one description per
+copy hook, slot operations, mixed histories), the table state machines (Sqfs/Model/ObjKinds.lean) and the state part of the
+reader hooks (Sqfs/Model/C19Readers.lean over C10's models of meta_reader.c / data_reader.c).
 Tie: harness/h_c19.c runs the real objects (ASan+UBSan+LeakSanitizer) through seeded scenarios
-    history on {o, t1, t2}; copy (or copy with the k-th allocation failing); interleaved operations on o (mirrored
-    on twin t1) and on the copy c (mirrored on twin t2); drops of o and c in either order, with or without the
-    user's own file/compressor references released first
-for all 13 kinds, and prints a behavioural probe of every fresh copy (header fields, buffer slots duplicated /
-aliased / trimmed, references grabbed / deep-copied).  The same scripts run through `sqfsmodel c19 sim` (hooks as
-repaired) and `sim-current` (hooks of the pinned tree); control-line answers (probe, refcounts of the shared file
-and compressor after every drop) and the outcome class are compared, o≡t1 and c≡t2 are compared line by line.
+    history on {o, t1, t2}; copy (or copy with the k-th acquisition failing: every k); operations on the copy c (mirrored on
+    twin t2) and on o (mirrored on t1), interleaved; drops of o and c in either order, with or without the user's own
+    file/compressor references released first; a state hash of all four objects after every step
+for all 13 kinds (+ a file opened for writing), and prints a behavioural probe of every fresh copy (header fields, every
+buffer slot duplicated / aliased / trimmed / contents differ, the struct's plain fields, references grabbed / deep-copied).
+The same scripts run through `sqfsmodel c19 sim` (hooks as in /repo), `sim-mix`, `sim-current` (hooks before the fix commits);
+compared: control-line answers (probe, refcounts of the shared file and compressor after every drop), outcome class,
+independence/equivalence relations of the state hashes vs the model's `view`; o≡t1 and c≡t2 line by line and by state hash;
+`describe <kind>` vs everything the probe saw; `copystate` (drCopy/mrCopy on dumped real states); table answers (`tbl`).
+Everything that evaluates nothing, or that a helper does not understand, is a failure of the check (CheckFailure), not a pass.
 """
 import json, os, re, subprocess, zlib
 from concurrent.futures import ThreadPoolExecutor
